@@ -58,7 +58,7 @@ def tokens(A, fi, ctx):
     if fi.name == 'handle_request':
         keep = {'environ', 'query', 'sid', 'transport', 'method', 'upgrade_header', 'origin',
                 'allowed_origins', 'socket', 'r', 'translate_request'}
-    en = A.enum(opaque=opaque, max_paths=150000, refine_raises=False, keep=keep)
+    en = A.enum(opaque=opaque, max_paths=150000, refine_raises=False, keep=keep, loop_bound=1)
     out = set()
     for p in A.paths(en, fi, ctx):
         for e in p.events:
